@@ -333,6 +333,11 @@ func errStr(e error) string {
 	return short(e.Error())
 }
 
+// EmptyLockingRequests is the request list of an execution block in which nothing happened (only the gas report).
+func EmptyLockingRequests(h int64) *goattypes.LockingRequests {
+	return &goattypes.LockingRequests{Gas: []*goattypes.GasRequest{goattypes.NewGasRequest(uint64(h), big.NewInt(0))}}
+}
+
 // EmptyLockAbs is the abstract form of "no locking request but the mandatory gas report".
 func EmptyLockAbs() Ev {
 	return Ev{"gas": []int64{0}, "grants": []int64{}, "weights": []Ev{}, "thresholds": []Ev{}, "creates": []Ev{},
